@@ -87,6 +87,15 @@ def private(case, model, distributed_wrap):
     else:
         kw.update(max_grad_norm=case['C'], grad_sample_mode=case['mode'])
     r = eng.make_private(**kw)
+    if case.get('remake'):
+        # a second make_private on the same engine with the objects the first one returned (re-wrapping, e.g. for another noise level):
+        # the optimizer it replaces must be without effect from then on
+        kw.update(module=r[0], optimizer=r[1])
+        if case['clipping'] == 'ghost':
+            # a fresh criterion: the first call has switched the reduction of the one it was given to 'none' (audit/C19/ghost_criterion_mutated.py)
+            crit = nn.CrossEntropyLoss(reduction=red) if case['model'] != 'probe' else ProbeCrit(red)
+            kw.update(criterion=crit)
+        r = eng.make_private(**kw)
     r[1]._verif_engine = eng          # the harness reads the accountant's history afterwards
     if case['clipping'] == 'ghost':
         m, o, crit, _ = r
